@@ -138,7 +138,7 @@ func TestC15(t *testing.T) {
 		fmt.Println("REPLAY case passed")
 		return
 	}
-	ev.Rule("rapid: source image of every standard type (RGBA64, NRGBA64, RGBA, NRGBA, YCbCr x 6 subsamplings, NYCbCrA, Gray, Gray16, Alpha, Alpha16, CMYK, Paletted, opaque wrapper), width/height 0..9, origin in [-6,6]^2 (non-negative for YCbCr), optionally a sub-image of a larger parent, pixel bytes prng/0xff/0/ramp; parallelism in {1,2,3,7,16,rows+5}; 3 helpers. Plus a fixed cross-product types x helpers x parallelism on awkward geometry, and (thorough) all 2^24 YCbCr triples and every byte value in every channel position. non-trivial = distinct case whose source is handled by a hand-written loop, or has non-zero origin, or parallelism > rows")
+	ev.Rule("rapid: source image of every standard type (RGBA64, NRGBA64, RGBA, NRGBA, YCbCr x 6 subsamplings, NYCbCrA, Gray, Gray16, Alpha, Alpha16, CMYK, Paletted, opaque wrapper), width/height 0..9, origin in [-6,6]^2 (non-negative for YCbCr), optionally a sub-image of a larger parent, pixel bytes prng/0xff/0/ramp; parallelism in {1,2,3,7,16,rows+5}; 3 helpers. Plus banners (1-3 rows of 64..20000 pixels, widths around powers of two, non-zero x origins, sub-images; a tenth of the rapid images and a sweep over every type x helper), a fixed cross-product types x helpers x parallelism on awkward geometry, and (thorough) all 2^24 YCbCr triples and every byte value in every channel position. non-trivial = distinct case whose source is handled by a hand-written loop, or has non-zero origin, or parallelism > rows")
 	ev.Assume("image/draw.Draw with draw.Src is the reference conversion")
 	// fixed cross product on awkward geometry
 	for _, typ := range img.Types {
